@@ -83,6 +83,17 @@ fn render(sc: &Value, b: usize, part: &str, t: usize) -> (Vec<f32>, bool) {
 	let mut a = sim.manager.add_sub_track(with_fx!(TrackBuilder::new().with_send(&send, Decibels(-3.0)), e(1))).unwrap();
 	// (the leaf track has a route of its own: once its sound has ended it is an idle track with an effect tail and a send)
 	let mut bt = a.add_sub_track(with_fx!(TrackBuilder::new().volume(Decibels(-2.0)).with_send(&send, Decibels(-5.0)), e(2))).unwrap();
+	// an older, shorter sound on track A and on the main track: it ends in the middle of a chunk while a younger sound goes on
+	for (k, len) in [(0usize, 131usize), (1, 83)] {
+		let st = StaticSoundSettings::new().panning(Panning(if k == 0 { -0.3 } else { 0.6 })).volume(Decibels(-5.0));
+		let data = StaticSoundData { sample_rate: SR, frames: noise(len, 31 + k as u32), settings: st, slice: None };
+		if k == 0 {
+			std::mem::forget(a.play(data).unwrap());
+		} else {
+			std::mem::forget(sim.manager.play(data).unwrap());
+		}
+	}
+	std::mem::forget(sim.manager.play(StaticSoundData { sample_rate: SR, frames: noise(200, 41), settings: StaticSoundSettings::new().volume(Decibels(-9.0)), slice: None }).unwrap());
 	for (i, tr) in [&mut a, &mut bt].into_iter().enumerate() {
 		let mut st = StaticSoundSettings::new()
 			.playback_rate(PlaybackRate(sc["rates"][i].as_u64().unwrap() as f64 / 256.0))
